@@ -59,11 +59,11 @@ Theorem C09_own_steps_never_stale_bounded :
     In tv (vectors role_opts n) -> In tl (0 :: voters_of (target_of tv)) ->
     In lok (vectors [true; false] n) -> In m modes ->
   forall b ss kl kr,
-    let i := mk_input n ov ol tv tl lok m force in
-    prepared i = Some b -> build i = Built ss kl kr ->
+    prepared (mk_input n ov ol tv tl lok m force) = Some b ->
+    build (mk_input n ov ol tv tl lok m force) = Built ss kl kr ->
     excluded b = false ->                       (* the plans C08 refutes *)
     readded_same_id ss = false ->               (* the class refuted below *)
-    plan_runs_ok (i_region i) ss = true.
+    plan_runs_ok (i_region (mk_input n ov ol tv tl lok m force)) ss = true.
 Proof. exact own_steps_never_stale_bounded_pf. Qed.
 
 (* ---- own_steps_never_stale, full statement: refuted on the unchanged code ---- *)
